@@ -30,5 +30,7 @@ def check(run):
     run.gen("Gen_MapBodies")
     # honest signed structures over the non-canonical accepted shapes: signatures are computed over the re-serialised bytes
     run.gen("Gen_Signed")
+    # histories on one EncryptedLeaseSet: decryption leaves its serialisation alone
+    run.gen("Gen_C16", consts={"Part": "encdec"}, tag="Gen_C16_encdec")
     run.replay_and_judge()
     return vlib.finish(run, "model_checking", RULE, ASSUME)
